@@ -17,17 +17,21 @@ def shipped_hooks():
     return open(os.path.join(REPO, "acmed", "config", "default_hooks.toml")).read()
 
 
-def make_req(group, ident, issuances, with_git, port=None, defaulted=(), key_type="ecdsa-p256", host="127.0.0.1", level="global", decoy_port=None):
+ROOTS = {"plain": ("www", "run-pid", "run-sock"), "odd": ("Web Root-É", "Run-Pid", "Run Söck")}
+
+
+def make_req(group, ident, issuances, with_git, port=None, defaulted=(), key_type="ecdsa-p256", host="127.0.0.1", level="global", decoy_port=None, roots="plain"):
     """level: where the variables are set (the manual sets them in [global], on the certificate and on an identifier, the narrower one winning);
     the wider levels and the daemon's own environment then hold decoy values that must not be used."""
     challenge = "http-01" if group.startswith("http") else "tls-alpn-01"
+    www, rpid, rsock = ROOTS[roots]  # "odd": upper-case letters, a space and a non-ASCII letter in the directory names
     env = {}
     if "HTTP_ROOT" not in defaulted:
-        env["HTTP_ROOT"] = "@DIR@/www"
+        env["HTTP_ROOT"] = "@DIR@/" + www
     if "TACD_PID_ROOT" not in defaulted:
-        env["TACD_PID_ROOT"] = "@DIR@/run-pid"
+        env["TACD_PID_ROOT"] = "@DIR@/" + rpid
     if "TACD_SOCK_ROOT" not in defaulted:
-        env["TACD_SOCK_ROOT"] = "@DIR@/run-sock"
+        env["TACD_SOCK_ROOT"] = "@DIR@/" + rsock
     if group.endswith("tcp"):
         if "TACD_PORT" not in defaulted:
             env["TACD_PORT"] = str(port)
@@ -55,16 +59,16 @@ def make_req(group, ident, issuances, with_git, port=None, defaulted=(), key_typ
         "account": [{"name": "acc0", "contacts": [{"mailto": "a@example.org"}], "hooks": ["git"] if with_git else []}],
         "certificate": [cert_entry],
     }
-    validate = {"http_root": "@DIR@/www", "retry_ms": 10000}
+    validate = {"http_root": "@DIR@/" + www, "retry_ms": 10000}
     if group.endswith("unix"):
-        validate["tls"] = {"mode": "unix", "sock_root": "@DIR@/run-sock"}
+        validate["tls"] = {"mode": "unix", "sock_root": "@DIR@/" + rsock}
     else:
         validate["tls"] = {"mode": "tcp", "addr": "%s:%s" % (host if "TACD_HOST" not in defaulted else "127.0.0.1", port if "TACD_PORT" not in defaulted else 5001)}
     req = cfg.scenario(doc, cas=[{"validate": validate, "cert_lifetime_s": 10 * 86400}], phases=[{"attempts": issuances, "wall_budget_ms": 60000}])
     req["files"]["default_hooks.toml"] = shipped_hooks()
-    req["files"]["www/.keep"] = ""
-    req["files"]["run-pid/.keep"] = ""
-    req["files"]["run-sock/.keep"] = ""
+    req["files"][www + "/.keep"] = ""
+    req["files"][rpid + "/.keep"] = ""
+    req["files"][rsock + "/.keep"] = ""
     req["env"] = {"PATH": "%s:/usr/local/sbin:/usr/local/bin:/usr/sbin:/usr/bin:/sbin:/bin" % os.path.dirname(build.REL_TACD), "GIT_CONFIG_NOSYSTEM": "1",
                   "GIT_CONFIG_GLOBAL": "/dev/null"}
     if level != "global":
@@ -74,7 +78,7 @@ def make_req(group, ident, issuances, with_git, port=None, defaulted=(), key_typ
         req["env"].update(decoy)
     req["keep_dir"] = True
     req["observe_files"] = True
-    req["meta"] = {"group": group, "ident": ident, "issuances": issuances, "git": with_git, "defaulted": list(defaulted) + ([] if host == "127.0.0.1" else ["host=" + host]) + ([] if level == "global" else ["level=" + level]), "port": port}
+    req["meta"] = {"group": group, "ident": ident, "issuances": issuances, "git": with_git, "defaulted": list(defaulted) + ([] if host == "127.0.0.1" else ["host=" + host]) + ([] if level == "global" else ["level=" + level]) + ([] if roots == "plain" else ["roots=" + roots]), "port": port, "roots": roots}
     return req
 
 
@@ -82,10 +86,11 @@ def inspect_dir(d, meta):
     """Leftovers and git history after the run; returns list of (oracle, ctx, expected, observed)."""
     out = []
     g = meta["group"]
-    proofs = [p for p in glob.glob(os.path.join(d, "www", "**", "*"), recursive=True) if os.path.isfile(p) and ".well-known/acme-challenge" in p]
+    www, rpid, rsock = ROOTS[meta.get("roots", "plain")]
+    proofs = [p for p in glob.glob(os.path.join(glob.escape(d), glob.escape(www), "**", "*"), recursive=True) if os.path.isfile(p) and ".well-known/acme-challenge" in p]
     if proofs:
         out.append(("no-leftovers", "%s|proof-file" % g, "no proof file left after validation", str([os.path.relpath(p, d) for p in proofs])))
-    left = [p for p in glob.glob(os.path.join(d, "run-*", "*")) if not p.endswith(".keep")]
+    left = [p for r_ in (rpid, rsock) for p in glob.glob(os.path.join(glob.escape(d), glob.escape(r_), "*")) if not p.endswith(".keep")]
     pids = [p for p in left if p.endswith(".pid")]
     socks = [p for p in left if p.endswith(".sock")]
     if pids:
@@ -185,6 +190,9 @@ def run(ctx):
     for group in ("http-01-echo", "tls-alpn-01-tacd-tcp", "tls-alpn-01-tacd-unix"):
         reqs.append(make_req(group, "a.example+b.a.example", 2, False, port=bb.free_port()))
         reqs.append(make_req(group, "localhost+a.example+b.a.example", 1, group == "http-01-echo", port=bb.free_port()))
+    # directory names with upper-case letters, a space and a non-ASCII letter (nothing in a path may be case-folded or split)
+    for group in ("http-01-echo", "tls-alpn-01-tacd-tcp", "tls-alpn-01-tacd-unix"):
+        reqs.append(make_req(group, "a.example", 2, group != "tls-alpn-01-tacd-tcp", port=bb.free_port(), roots="odd"))
     # the same variables set on the certificate or on the identifier (as in the manual's TACD_PORT example), decoy values at the wider levels
     for level in ("certificate", "identifier"):
         for group in ("http-01-echo", "tls-alpn-01-tacd-tcp", "tls-alpn-01-tacd-unix"):
